@@ -545,8 +545,10 @@ class XPathContext:
 
         elif axis != 'descendant' and isinstance(self.item, XPathNode):
             self.axis, axis = axis, self.axis
-            yield self.item
-            self.axis = axis
+            try:
+                yield self.item
+            finally:
+                self.axis = axis  # also when the consumer stops early or raises
 
     def iter_ancestors(self, axis: Optional[str] = None) -> Iterator[XPathNode]:
         """
